@@ -105,6 +105,18 @@ TMig ==
      /\ pt' = t
   /\ aligned' = (aligned /\ WellFormed(Ev.pt) /\ Ev.voff = 0) /\ UNCHANGED <<psz, bctx>>
 
+\* One huge buffer allocated and freed at once (moves the virtual cursor across a power-of-two boundary).
+\* Between the two calls the harness found: all n pages mapped, pairwise distinct physical pages, none of them
+\* mapped before, all inside and recorded for the target device, page-aligned and valid; after the Free none left.
+TBurn ==
+  /\ Is("Burn") /\ NoDupKeys(Ev.pt)
+  /\ Ev.v = NextV(Ev.pid)
+  /\ Ev.mapped = Ev.n /\ Ev.distinct = 1 /\ Ev.fresh = 1 /\ Ev.indev = 1 /\ Ev.left = 0
+  /\ Burn(Ev.pid, Ev.dev, Ev.n)
+  /\ LPT(Ev.pt) = pt
+  /\ aligned' = (aligned /\ WellFormed(Ev.pt) /\ Ev.voff = 0 /\ Ev.wf = 1) /\ UNCHANGED psz
+  /\ bctx' = Append(bctx, Ev.ctx)
+
 \* Buddy allocator only (deviation BuddyCorruptsFreeLists): the call handed out a live page.  Terminal.
 TAliased ==
   /\ l <= N /\ Ev.e \in {"Alloc", "Remap", "Dist", "Mig"} /\ l' = l + 1
@@ -121,6 +133,9 @@ TPanic ==
      \/ /\ Ev.op \in {"Alloc", "Launch"} /\ Ev.dev \in DevIds
         /\ \/ OutOfMemory(Targets(Ev.dev), Pages(Ev.bytes), TRUE)
            \/ OutOfMemoryBuddy(Targets(Ev.dev), Pages(Ev.bytes), TRUE)
+        /\ Note(devUsed' \ dvBefore)
+     \/ /\ Ev.op = "Burn" /\ Ev.dev \in DevIds
+        /\ OutOfMemory(Targets(Ev.dev), Ev.n, TRUE)
         /\ Note(devUsed' \ dvBefore)
      \/ /\ Ev.op = "Remap" /\ Ev.dev \in DevIds
         /\ \/ OutOfMemory(Targets(Ev.dev), Pages(Ev.bytes), FALSE)
@@ -159,7 +174,7 @@ TReset ==
   /\ bufs' = <<>> /\ held' = {} /\ devUsed' = {} /\ crashed' = FALSE
   /\ psz' = Ev.psz /\ aligned' = TRUE /\ bctx' = <<>>
 
-TNext == TAlloc \/ TAliased \/ TFree \/ TRemap \/ TDist \/ TMig \/ TLaunch \/ TCopyOut \/ TPanic \/ TEnd \/ TReset
+TNext == TAlloc \/ TBurn \/ TAliased \/ TFree \/ TRemap \/ TDist \/ TMig \/ TLaunch \/ TCopyOut \/ TPanic \/ TEnd \/ TReset
 
 TSpec == TInit /\ [][TNext]_tvars
 
